@@ -255,6 +255,8 @@ def handle (c : Case) : Verdict :=
       -- the contract is judged on everything that was sent, the expectations (rounds, completeness,
       -- content) on what the receiver has taken out of the channels by the end of the run
       let valid := (checkInput nL nR lc rc ls).valid && !m.ambiguous
+      -- the hypothesis of the theorems of Props/C11.lean (`contractL`, left side cached), evaluated on what was sent
+      let leanContract := lc && contractL nL nR (toOps ls).1
       let info := { checkInput nL nR lc rc m.consumed with valid := valid }
       let special := c.implOut.any (fun s => s.startsWith "panic:" || s.endsWith "blocked")
       let oracle : Option String :=
@@ -265,7 +267,9 @@ def handle (c : Case) : Verdict :=
           let f11 := if lc || rc then c11Failures lc info impl else []
           let f05 := c05Failures info impl
           let f09 := if lc || rc then [] else c09Failures info impl
-          let all := f11.map (fun s => s!"[C11] {s}") ++ f05.map (fun s => s!"[C05] {s}")
+          -- every history the driver accepts (left side cached) must satisfy the theorems' hypothesis
+          let fc := if lc && !leanContract then ["[C11] input accepted by the driver's contract check but not by contractL (Props/C11.lean)"] else []
+          let all := fc ++ f11.map (fun s => s!"[C11] {s}") ++ f05.map (fun s => s!"[C05] {s}")
             ++ f09.map (fun s => s!"[C09] {s}")
           if all.isEmpty then none else some (" ;; ".intercalate all)
       let rounds := if lc then info.roundsR else if rc then info.roundsL else min info.roundsL info.roundsR
@@ -278,6 +282,7 @@ def handle (c : Case) : Verdict :=
                  s!"outcome-{match m.outcome with | .idle => "idle" | .done => "done" | .blocked => "blocked" | .panic => "panic" | .fuel => "fuel"}"]
               ++ (if lc || rc then [s!"cache{min nCacheData 3}"] else [])
               ++ (if nq > 0 then ["queued"] else [])
+              ++ (if leanContract then ["contractL"] else [])
               ++ (if m.consumed.length < ls.length then ["leftover"] else [])
               ++ (if m.ambiguous then ["ambiguous"] else [])
               ++ (match oracle with
